@@ -9,20 +9,26 @@ Import ListNotations.
 Local Open Scope R_scope.
 
 Lemma push_forward_dS_ok1 : push_forward_dS_stmt1.
-Proof. unfold push_forward_dS_stmt1. jac ltac:(unfold f_push_forward_dS1_l, f_push_forward_dS1, D_push_forward_dS1_l, D_push_forward_dS1) ltac:(idtac). Qed.
+Proof. unfold push_forward_dS_stmt1. jac_t 600 ltac:(lazy beta iota zeta delta [upd nthR List.firstn List.skipn List.app List.nth Nat.mul Nat.add f_push_forward_dS1_l f_push_forward_dS1 D_push_forward_dS1_l D_push_forward_dS1]) ltac:(idtac). Qed.
 Lemma push_forward_dS_ok2 : push_forward_dS_stmt2.
-Proof. unfold push_forward_dS_stmt2. jac ltac:(unfold f_push_forward_dS2_l, f_push_forward_dS2, D_push_forward_dS2_l, D_push_forward_dS2) ltac:(idtac). Qed.
+Proof. unfold push_forward_dS_stmt2. jac_t 600 ltac:(lazy beta iota zeta delta [upd nthR List.firstn List.skipn List.app List.nth Nat.mul Nat.add f_push_forward_dS2_l f_push_forward_dS2 D_push_forward_dS2_l D_push_forward_dS2]) ltac:(idtac). Qed.
 Lemma push_forward_dS_ok3 : push_forward_dS_stmt3.
-Proof. unfold push_forward_dS_stmt3. jac ltac:(unfold f_push_forward_dS3_l, f_push_forward_dS3, D_push_forward_dS3_l, D_push_forward_dS3) ltac:(idtac). Qed.
+Proof. unfold push_forward_dS_stmt3. jac_t 3000 ltac:(lazy beta iota zeta delta [upd nthR List.firstn List.skipn List.app List.nth Nat.mul Nat.add f_push_forward_dS3_l f_push_forward_dS3 D_push_forward_dS3_l D_push_forward_dS3]) ltac:(idtac). Qed.
 Lemma push_forward_dF_ok1 : push_forward_dF_stmt1.
-Proof. unfold push_forward_dF_stmt1. jac ltac:(unfold f_push_forward_dF1_l, f_push_forward_dF1, D_push_forward_dF1_l, D_push_forward_dF1) ltac:(idtac). Qed.
+Proof. unfold push_forward_dF_stmt1. jac_t 600 ltac:(lazy beta iota zeta delta [upd nthR List.firstn List.skipn List.app List.nth Nat.mul Nat.add f_push_forward_dF1_l f_push_forward_dF1 D_push_forward_dF1_l D_push_forward_dF1]) ltac:(idtac). Qed.
 Lemma push_forward_dF_ok2 : push_forward_dF_stmt2.
-Proof. unfold push_forward_dF_stmt2. jac ltac:(unfold f_push_forward_dF2_l, f_push_forward_dF2, D_push_forward_dF2_l, D_push_forward_dF2) ltac:(idtac). Qed.
+Proof. unfold push_forward_dF_stmt2. jac_t 600 ltac:(lazy beta iota zeta delta [upd nthR List.firstn List.skipn List.app List.nth Nat.mul Nat.add f_push_forward_dF2_l f_push_forward_dF2 D_push_forward_dF2_l D_push_forward_dF2]) ltac:(idtac). Qed.
 Lemma push_forward_dF_ok3 : push_forward_dF_stmt3.
-Proof. unfold push_forward_dF_stmt3. jac ltac:(unfold f_push_forward_dF3_l, f_push_forward_dF3, D_push_forward_dF3_l, D_push_forward_dF3) ltac:(idtac). Qed.
+Proof. unfold push_forward_dF_stmt3. jac_t 3000 ltac:(lazy beta iota zeta delta [upd nthR List.firstn List.skipn List.app List.nth Nat.mul Nat.add f_push_forward_dF3_l f_push_forward_dF3 D_push_forward_dF3_l D_push_forward_dF3]) ltac:(idtac). Qed.
 Lemma push_forward_chain_ok1 : push_forward_chain_stmt1.
-Proof. unfold push_forward_chain_stmt1. jac ltac:(unfold f_push_forward_chain1_l, f_push_forward_chain1, D_push_forward_chain1_l, D_push_forward_chain1) ltac:(idtac). Qed.
+Proof. unfold push_forward_chain_stmt1. jac_t 600 ltac:(lazy beta iota zeta delta [upd nthR List.firstn List.skipn List.app List.nth Nat.mul Nat.add f_push_forward_chain1_l f_push_forward_chain1 D_push_forward_chain1_l D_push_forward_chain1]) ltac:(idtac). Qed.
 Lemma push_forward_chain_ok2 : push_forward_chain_stmt2.
-Proof. unfold push_forward_chain_stmt2. jac ltac:(unfold f_push_forward_chain2_l, f_push_forward_chain2, D_push_forward_chain2_l, D_push_forward_chain2) ltac:(idtac). Qed.
-Lemma push_forward_chain_ok3 : push_forward_chain_stmt3.
-Proof. unfold push_forward_chain_stmt3. jac ltac:(unfold f_push_forward_chain3_l, f_push_forward_chain3, D_push_forward_chain3_l, D_push_forward_chain3) ltac:(idtac). Qed.
+Proof. unfold push_forward_chain_stmt2. jac_t 600 ltac:(lazy beta iota zeta delta [upd nthR List.firstn List.skipn List.app List.nth Nat.mul Nat.add f_push_forward_chain2_l f_push_forward_chain2 D_push_forward_chain2_l D_push_forward_chain2]) ltac:(idtac). Qed.
+Lemma kirchhoff_from_cauchy_ok1 : kirchhoff_from_cauchy_stmt1.
+Proof. unfold kirchhoff_from_cauchy_stmt1. jac_t 600 ltac:(lazy beta iota zeta delta [upd nthR List.firstn List.skipn List.app List.nth Nat.mul Nat.add f_kirchhoff_from_cauchy1_l f_kirchhoff_from_cauchy1 D_kirchhoff_from_cauchy1_l D_kirchhoff_from_cauchy1]) ltac:(idtac). Qed.
+Lemma kirchhoff_from_cauchy_ok2 : kirchhoff_from_cauchy_stmt2.
+Proof. unfold kirchhoff_from_cauchy_stmt2. jac_t 600 ltac:(lazy beta iota zeta delta [upd nthR List.firstn List.skipn List.app List.nth Nat.mul Nat.add f_kirchhoff_from_cauchy2_l f_kirchhoff_from_cauchy2 D_kirchhoff_from_cauchy2_l D_kirchhoff_from_cauchy2]) ltac:(idtac). Qed.
+Lemma cauchy_from_kirchhoff_ok1 : cauchy_from_kirchhoff_stmt1.
+Proof. unfold cauchy_from_kirchhoff_stmt1. jac_t 600 ltac:(lazy beta iota zeta delta [upd nthR List.firstn List.skipn List.app List.nth Nat.mul Nat.add f_cauchy_from_kirchhoff1_l f_cauchy_from_kirchhoff1 D_cauchy_from_kirchhoff1_l D_cauchy_from_kirchhoff1]) ltac:(unfold f_tensor_det1). Qed.
+Lemma cauchy_from_kirchhoff_ok2 : cauchy_from_kirchhoff_stmt2.
+Proof. unfold cauchy_from_kirchhoff_stmt2. jac_t 600 ltac:(lazy beta iota zeta delta [upd nthR List.firstn List.skipn List.app List.nth Nat.mul Nat.add f_cauchy_from_kirchhoff2_l f_cauchy_from_kirchhoff2 D_cauchy_from_kirchhoff2_l D_cauchy_from_kirchhoff2]) ltac:(unfold f_tensor_det2). Qed.
